@@ -16,6 +16,10 @@ func (fr *Frame) specEnv(st *State) *SpecEnv {
 		env.old = nil
 		env.entry = nil
 	}
+	for k, v := range fr.hookVars {
+		env.vars[k] = v
+	}
+	env.loopPre = fr.loopPre
 	if fr.pendingRet != nil && fr.contract != nil {
 		bindResults(env, *fr.pendingRet, resultNames(fr.fn, fr.contract), fr.fn.Signature.Results())
 	}
@@ -108,6 +112,7 @@ func (fr *Frame) havocModSet(st *State, ms *modSet, locs []modLoc, hint string) 
 		}
 		st.cells[c] = nv
 	}
+	preAlloc, preAllocA := st.H(allocKey, allocSort), st.H(allocAKey, allocSort)
 	covered := map[string]bool{}
 	if locs != nil {
 		for _, k := range fr.havocLocsLoop(st, locs, hint) {
@@ -132,7 +137,18 @@ func (fr *Frame) havocModSet(st *State, ms *modSet, locs []modLoc, hint string) 
 			st.setH(k, nw)
 			continue
 		}
-		st.setH(k, Fresh(hint+"_"+k, srt))
+		nw := Fresh(hint+"_"+k, srt)
+		if locs != nil && len(string(srt)) > 0 && string(srt)[0] == '(' && preAlloc != nil {
+			// the loop has a modifies clause that does not name this key: only objects allocated
+			// after loop entry may change (checked at the back edge by the frame obligation)
+			ak := preAlloc
+			if len(k) > 2 && k[:2] == "E:" {
+				ak = preAllocA
+			}
+			r := Bound("r", SInt)
+			st.assume(Forall([]*Term{r}, Implies(Select(ak, r), Eq(Select(nw, r), Select(st.H(k, srt), r))), []*Term{Select(nw, r)}))
+		}
+		st.setH(k, nw)
 	}
 	// values in havocked cells refer to allocated objects of the (possibly grown) heap
 	for _, c := range cells {
@@ -237,6 +253,7 @@ func (fr *Frame) enterLoop(li *loopInfo, st *State) *State {
 	invs, mods, hasMod := fr.loopClauses(li)
 	lname := fmt.Sprintf("loop%d", li.ordinal)
 	pos := loopPos(li)
+	fr.loopPre = st.clone()
 	// invariants hold on entry
 	if !fr.dryMode() {
 		env := fr.specEnv(st)
@@ -275,6 +292,9 @@ func (fr *Frame) backEdge(li *loopInfo, st *State, from *ssa.BasicBlock) {
 	invs, _, _ := fr.loopClauses(li)
 	lname := fmt.Sprintf("loop%d", li.ordinal)
 	pos := loopPos(li)
+	if li.headState != nil {
+		fr.loopPre = li.headState
+	}
 	env := fr.specEnv(st)
 	suffix := ""
 	nback := 0
@@ -378,6 +398,23 @@ func (fr *Frame) atHook(where, target string, ins ssa.Instruction, st *State) {
 			// ghost update: <name> := <name> + 1
 			key := "ghost:" + at.Clause.Expr.Tok
 			st.setH(key, Add(st.H(key, SInt), IntLit(1)))
+			continue
+		}
+		if at.Kind == "set" {
+			// ghost assignment written as `set name == expr`
+			e := at.Clause.Expr
+			if e.Op != "bin" || e.Tok != "==" || e.Args[0].Op != "id" {
+				sfail("ghost assignment must have the form `set name == expr`: %s", at.Clause.Text)
+			}
+			senv := fr.specEnv(st)
+			if where == "entry" {
+				for k, pv := range fr.run.params {
+					senv.vars[k] = pv
+				}
+			}
+			v := senv.eval(e.Args[1])
+			key := "ghost:" + e.Args[0].Tok
+			st.setH(key, flatten(v)[0])
 			continue
 		}
 		env := fr.specEnv(st)
